@@ -28,13 +28,14 @@ EXPLANATION = (
 
 
 class Obligation:
-    def __init__(self, name, fn, params=None, time_limit=None, kind='forall', max_paths=None, finalize=None):
+    def __init__(self, name, fn, params=None, time_limit=None, kind='forall', max_paths=None, finalize=None, max_violations=3):
         self.name = name
         self.fn = fn
         self.params = params or {}
         self.time_limit = time_limit
         self.kind = kind  # 'forall' (symbolic exploration) | 'concrete' (plain finite check, reported apart)
         self.max_paths = max_paths
+        self.max_violations = max_violations
         self.finalize = finalize  # finalize(bag) -> list of confirmed violation dicts (existential claims over all paths)
 
 
@@ -68,7 +69,7 @@ def _run_one(i):
             out['wall_s'] = round(time.perf_counter() - t0, 3)
             return out
         ex = symx.Explorer(time_limit=ob.time_limit or _DEFAULT_LIMIT,
-                           max_paths=ob.max_paths or 10_000_000)
+                           max_paths=ob.max_paths or 10_000_000, max_violations=ob.max_violations)
         tracer = _Tracer()
         first = [True]
 
@@ -210,7 +211,8 @@ def run_property(modname, tier, seed=0, only=None, jobs=None):
         if hit['id'] in seen:
             continue
         seen.add(hit['id'])
-        lines.append(f"KNOWN-FINDING: property={prop} {hit['id']}: {hit['description']} (e.g. obligation={name} label={v['label']})")
+        n_hit = sum(1 for h2, _, _ in known_hits if h2['id'] == hit['id'])
+        lines.append(f"KNOWN-FINDING: property={prop} {hit['id']}: {hit['description'][:400]} ({n_hit} counterexamples matched, e.g. obligation={name} label={v['label']})")
 
     sym = [r for r in results if r['kind'] != 'concrete']
     conc = [r for r in results if r['kind'] == 'concrete']
